@@ -492,8 +492,7 @@ func (x *Exec) initIfaceGhost(st *State, iv IfaceV) {
 		return false
 	}
 	if has("Read") && !has("ReadAt") {
-		r := st.fresh("rem", SSeqI)
-		st.assume(app("g_isbytes", r))
+		r := x.freshBytes(st, "rem")
 		st.ghost["rem:"+iv.Sym] = TV{SSeqI, r}
 	}
 	if has("Write") {
